@@ -204,11 +204,14 @@ class URI(with_metaclass(URIType)):
 
 		uri, __, fragment = uri.partition(b'#')
 		uri, __, query_string = uri.partition(b'?')
-		scheme, authority_exists, rest = uri.partition(b'://')
-		if authority_exists:
-			uri = rest
+		if uri.startswith(b'/'):
+			scheme, authority_exists = b'', b''  # no scheme in front of a slash: a '://' further on is three path octets
 		else:
-			scheme = b''
+			scheme, authority_exists, rest = uri.partition(b'://')
+			if authority_exists:
+				uri = rest
+			else:
+				scheme = b''
 		if not authority_exists and uri.startswith(b'//'):
 			uri = uri[2:]
 			authority_exists = True
